@@ -1038,7 +1038,10 @@ def _means(prog):
         ex = mk()
         vc = guard(lambda: ex.run(call.body, {call.args.args[1].arg: R.sym("x"), call.args.args[2].arg: theta}))
         def untag(v):
-            m_ = {a: R.atom(("fn", "mean", a[2])) for a in v.all_atoms() if a[0] == "fn" and a[1].startswith("mean[")}
+            # the broadcasting tag ([@c] / [@r]: `x_mean[None, :]`) is dropped; the axis of a mean is part of the function and stays
+            # (`mean[axis=0]` and `mean` are different functions)
+            m_ = {a: R.atom(("fn", a[1].replace("[@c]", "").replace("[@r]", ""), a[2])) for a in v.all_atoms()
+                  if a[0] == "fn" and a[1].startswith("mean") and ("[@c]" in a[1] or "[@r]" in a[1])}
             return anf.subst(v, m_) if m_ else v
         vb, vc = untag(vb), untag(vc)
         out.append(formula_ob("mean-sibling", qual(mc, bm), vb, vc, MEAN, bm.lineno,
